@@ -63,10 +63,70 @@ def digest_exact(case, o):
         return None
 
 
+def reset_state():
+    cr.GLOBAL_PRIOR_COMB_COUNTS.clear()
+    for nm in dir(cr):                       # any further module-level cache a rewrite may introduce
+        if nm.startswith("GLOBAL_") and nm != "GLOBAL_PRIOR_COMB_COUNTS":
+            g = getattr(cr, nm)
+            if hasattr(g, "clear"):
+                g.clear()
+
+
+def large_frame(p):
+    """deterministic large-cardinality frames (too big to ship through JSON / Coq): returns names, rows"""
+    n, off = p["n"], p.get("offset", 0)
+    if p["kind"] == "grid":                  # all tuples distinct
+        m = p["mod"]
+        rows = [["u%d" % (i % m + off), "i%d" % (i // m + off), str(i & 1)] for i in range(n)]
+    else:                                    # "dup": d distinct tuples, each repeated
+        d, m = p["distinct"], p["mod"]
+        rows = []
+        for i in range(n):
+            j = (i * 7919) % d
+            rows.append(["u%d" % (j % m + off), "i%d" % (j // m + off), str(i & 1)])
+    return ["user", "item", "label"], rows
+
+
+def run_large(case):
+    p = case["large"]
+    names, rows = large_frame(p)
+    df = pd.DataFrame(rows, columns=names)
+    args = types.SimpleNamespace(label_column="label", interaction_order=2, combination_number_upper_bound=2 ** 20,
+                                 reference_model_JSON="", heuristic="MI-numba-randomized")
+    res = cr.compute_combined_features(df, args, FakeBar(), False)
+    o = {"ok": True, "names": [str(c) for c in res.columns], "nrows": int(res.shape[0]),
+         "index_ok": list(res.index[:5]) == [0, 1, 2, 3, 4] and len(res.index) == len(rows)}
+    if len(o["names"]) != 4:
+        o["problem"] = "expected exactly one new column"
+        return o
+    vals = res.iloc[:, 3].tolist()
+    prefix_ok = all(res.iloc[:, j].tolist() == [r[j] for r in rows] for j in range(3))
+    o["prefix_ok"] = bool(prefix_ok)
+    t2v, v2t = {}, {}
+    collision = None
+    split = None
+    for r, v in zip(rows, vals):
+        t = (r[0], r[1])
+        if t2v.setdefault(t, v) != v and split is None:
+            split = {"tuple": list(t), "values": [t2v[t], v]}
+        if v2t.setdefault(v, t) != t and collision is None:
+            collision = {"value": v, "tuples": [list(v2t[v]), list(t)]}
+    o["distinct_tuples"] = len(t2v)
+    o["distinct_values"] = len(v2t)
+    o["collision"] = collision
+    o["split"] = split
+    o["value_sample"] = [str(x) for x in vals[:3]]
+    return o
+
+
 out = []
 for case in payload["cases"]:
-    cr.GLOBAL_PRIOR_COMB_COUNTS.clear()
+    if not case.get("keep_state"):           # histories: consecutive batches share the sampler's prior counts
+        reset_state()
     try:
+        if "large" in case:
+            out.append(run_large(case))
+            continue
         # default: the RangeIndex compute_batch_ranking builds; "index": a frame that was filtered / shuffled / re-labelled
         index = case.get("index")
         df = pd.DataFrame(case["rows"], columns=case["names"], index=index)
@@ -83,5 +143,5 @@ for case in payload["cases"]:
     except Exception as e:  # recorded outcome, decided by the harness
         import traceback
         out.append({"ok": False, "error": "%s: %s" % (type(e).__name__, e), "tb": traceback.format_exc()[-1500:]})
-cr.GLOBAL_PRIOR_COMB_COUNTS.clear()
+reset_state()
 print("@@RESULT " + json.dumps({"results": out}))
